@@ -42,6 +42,9 @@ type c01Op struct {
 	Vars map[string]interface{}
 	Exp  string
 	Raw  interface{}
+	// attr: struct type, passed as pointer, object template; flood: number of attribute names
+	Ty, Tpl, Cnt int
+	Ptr          bool
 }
 
 type c01Hist struct {
@@ -60,6 +63,68 @@ func (l *c01Loader) Load(name string) (string, error) {
 }
 func (l *c01Loader) Exists(name string) bool { _, ok := l.files[name]; return ok }
 
+// Four struct types of the same shape (the attribute cache is keyed by type and name): Owner has a pointer receiver,
+// Kind a value receiver, Balance is a field.
+type c01AcctA struct {
+	owner   string
+	Balance int
+}
+type c01AcctB struct {
+	owner   string
+	Balance int
+}
+type c01AcctC struct {
+	owner   string
+	Balance int
+}
+type c01AcctD struct {
+	owner   string
+	Balance int
+}
+
+func (a *c01AcctA) Owner() string { return a.owner }
+func (a c01AcctA) Kind() string   { return "k" + a.owner }
+func (a *c01AcctB) Owner() string { return a.owner }
+func (a c01AcctB) Kind() string   { return "k" + a.owner }
+func (a *c01AcctC) Owner() string { return a.owner }
+func (a c01AcctC) Kind() string   { return "k" + a.owner }
+func (a *c01AcctD) Owner() string { return a.owner }
+func (a c01AcctD) Kind() string   { return "k" + a.owner }
+
+type c01Filler struct{ X int }
+
+func c01Object(ty int, ptr bool) interface{} {
+	owner, bal := "bob"+strconv.Itoa(ty), 5+ty
+	switch ty % 4 {
+	case 0:
+		if ptr {
+			return &c01AcctA{owner, bal}
+		}
+		return c01AcctA{owner, bal}
+	case 1:
+		if ptr {
+			return &c01AcctB{owner, bal}
+		}
+		return c01AcctB{owner, bal}
+	case 2:
+		if ptr {
+			return &c01AcctC{owner, bal}
+		}
+		return c01AcctC{owner, bal}
+	}
+	if ptr {
+		return &c01AcctD{owner, bal}
+	}
+	return c01AcctD{owner, bal}
+}
+
+// the object templates every engine of a history is given at creation (part of its configuration)
+var c01ObjectTemplates = []string{
+	"{{ a.Owner }}|{{ a.Balance }}|{{ a.Kind }}",
+	"{{ a.Balance }}{% if a.Owner %}Y{% else %}N{% endif %}",
+	"{{ a.Owner }}",
+}
+
 type c01DenyAll struct{}
 
 func (c01DenyAll) IsFunctionAllowed(string) bool { return false }
@@ -67,6 +132,14 @@ func (c01DenyAll) IsFilterAllowed(string) bool   { return false }
 func (c01DenyAll) IsTagAllowed(string) bool      { return false }
 
 func c01Name(n int) string { return "t" + strconv.Itoa(n) }
+
+// what a render / load / attr operation is applied to, for reports
+func c01Target(o c01Op) string {
+	if o.Kind == "attr" {
+		return fmt.Sprintf("object template o%d with a %T", o.Tpl%len(c01ObjectTemplates), c01Object(o.Ty, o.Ptr))
+	}
+	return c01Name(o.N)
+}
 
 func c01Decode(c Case) c01Hist {
 	h := c01Hist{Engines: c.num("engines")}
@@ -87,6 +160,8 @@ func c01Decode(c Case) c01Hist {
 		}
 		o.Kind, _ = m["op"].(string)
 		o.Exp, _ = m["exp"].(string)
+		o.Ty, o.Tpl, o.Cnt = geti(m, "ty"), geti(m, "tpl"), geti(m, "cnt")
+		o.Ptr, _ = m["ptr"].(bool)
 		if s, ok := m["src"].(string); ok {
 			o.Src = unhex(s)
 		}
@@ -124,6 +199,11 @@ func c01Engines(h *c01Hist) []*twig.Engine {
 			}
 		}
 		e.RegisterLoader(ld)
+		for k, src := range c01ObjectTemplates {
+			if err := e.RegisterString("o"+strconv.Itoa(k), src); err != nil {
+				panic("c01: object template does not parse: " + err.Error())
+			}
+		}
 		es[i] = e
 	}
 	return es
@@ -188,16 +268,34 @@ func c01Exec(es []*twig.Engine, o c01Op, poisonSeed int64) (res string, out stri
 		runtime.GC()
 	case "poison":
 		twig.VerifPoisonPools(poisonSeed)
+	case "attr":
+		s, err := e.Render("o"+strconv.Itoa(o.Tpl%len(c01ObjectTemplates)), map[string]interface{}{"a": c01Object(o.Ty, o.Ptr)})
+		return c01Class(s, err), s
+	case "flood":
+		// another engine renders another template: enough distinct (type, attribute) pairs to roll the
+		// process-wide attribute cache over
+		var sb strings.Builder
+		for i := 0; i < o.Cnt; i++ {
+			sb.WriteString("{{ a.f" + strconv.Itoa(i) + " }}")
+		}
+		fe := twig.New()
+		if err := fe.RegisterString("flood", sb.String()); err == nil {
+			_, _ = fe.Render("flood", map[string]interface{}{"a": c01Filler{X: 1}})
+		}
 	}
 	return "", ""
 }
 
 func c01IsConfig(o c01Op) bool { return o.Kind == "register" || o.Kind == "togglecache" }
 
+// operations whose result is compared with the pristine reference
+func c01HasResult(o c01Op) bool { return o.Kind == "render" || o.Kind == "load" || o.Kind == "attr" }
+
 // c01Pristine: the result of operation h.Ops[k] (a render or a load) on freshly created engines that are given
 // the registrations and cache settings of h.Ops[:k], with every pool emptied first.
 func c01Pristine(h *c01Hist, k int) string {
 	twig.VerifDrainPools()
+	twig.VerifAttrCacheReset() // the other process-wide state: the attribute cache of render.go
 	es := c01Engines(h)
 	for _, o := range h.Ops[:k] {
 		if c01IsConfig(o) {
@@ -324,7 +422,7 @@ func c01Run(h *c01Hist, mode string, seed int64, refs map[int]string, withModel 
 	// the pristine references are computed before the run, not in between its operations: computing one empties the
 	// pools, which must not happen to the state the history itself builds up
 	for k, o := range h.Ops {
-		if o.Kind == "render" || o.Kind == "load" {
+		if c01HasResult(o) {
 			if _, ok := refs[k]; !ok {
 				refs[k] = c01Pristine(h, k)
 			}
@@ -334,6 +432,7 @@ func c01Run(h *c01Hist, mode string, seed int64, refs map[int]string, withModel 
 	// (what happened "earlier in the process" is the operations of the history: other templates, other engines,
 	// failing renders, parses, explicit poison operations)
 	twig.VerifDrainPools()
+	twig.VerifAttrCacheReset()
 	es := c01Engines(h)
 	type kept struct {
 		k        int
@@ -353,14 +452,14 @@ func c01Run(h *c01Hist, mode string, seed int64, refs map[int]string, withModel 
 			twig.VerifPoisonPoolsWith(seed+int64(o.K0), false, true)
 		}
 		got, out := c01Exec(es, o, seed+int64(o.K0))
-		if o.Kind == "render" || o.Kind == "load" {
+		if c01HasResult(o) {
 			*evals++
 			ref := refs[k]
 			if got != ref {
 				return &c01Failure{K: k, Kind: "oracle", Expected: ref, Observed: got,
-					Detail: fmt.Sprintf("%s of %s on engine %d in mode %q differs from the same call on freshly created engines holding only the registrations (pristine reference)", o.Kind, c01Name(o.N), o.E, mode)}
+					Detail: fmt.Sprintf("%s of %s on engine %d in mode %q differs from the same call on freshly created engines holding only the registrations (pristine reference)", o.Kind, c01Target(o), o.E, mode)}
 			}
-			if o.Kind == "render" && strings.HasPrefix(got, "out:") {
+			if (o.Kind == "render" || o.Kind == "attr") && strings.HasPrefix(got, "out:") {
 				// an independent copy of the bytes, to be compared with the string itself at the end
 				outs = append(outs, kept{k, out, string(append([]byte(nil), out...))})
 			}
@@ -478,6 +577,11 @@ func c01CaseOf(h *c01Hist, stream string) Case {
 			}
 		case "togglecache":
 			m["e"] = o.E
+		case "attr":
+			m["e"], m["ty"], m["ptr"], m["tpl"] = o.E, o.Ty, o.Ptr, o.Tpl
+			m["text"] = c01ObjectTemplates[o.Tpl%len(c01ObjectTemplates)] + fmt.Sprintf("  with a = %T", c01Object(o.Ty, o.Ptr))
+		case "flood":
+			m["cnt"] = o.Cnt
 		}
 		ops = append(ops, m)
 	}
@@ -521,6 +625,13 @@ func runC01(cases string, res *Result) {
 		}
 		for _, o := range h.Ops {
 			res.Hist["op:"+o.Kind]++
+			if o.Kind == "attr" {
+				if o.Ptr {
+					res.Hist["attr:pointer"]++
+				} else {
+					res.Hist["attr:value"]++
+				}
+			}
 			if o.Kind == "render" {
 				switch {
 				case strings.HasPrefix(o.Exp, "out:"):
@@ -566,7 +677,7 @@ func runC01(cases string, res *Result) {
 		// fresh-process reference for a sample: the last render of the history
 		if stream == "fixed" || idx%8 == 0 {
 			for k := len(h.Ops) - 1; k >= 0; k-- {
-				if h.Ops[k].Kind != "render" {
+				if !c01HasResult(h.Ops[k]) || h.Ops[k].Kind == "load" {
 					continue
 				}
 				a, err := c01FreshProcess(&h, k, dir)
